@@ -766,7 +766,7 @@ Section Main.
       cbn [obj_free wf_con con_mergeable keys_ok] in *. rewrite spec_TUnion.
       rewrite accepts_first by (intros t Ht; apply obj_free_no_fuel; rewrite forallb_forall in Hf; auto).
       destruct ts as [|t0 tr].
-      + rewrite build_TUnion. cbn [map visited_union existsb forallb flat_map norm_types].
+      + rewrite build_TUnion. cbn [map visited_union existsb forallb flat_map norm_types dedup_types fold_left memt jtype_eqb app].
         rewrite jvalid_only_type. destruct d as [|x|z|f|s|l|l|tg]; try destruct f; reflexivity.
       + rewrite union_type_schema by discriminate.
         apply existsb_in_ext. intros t Ht. rewrite Forall_forall in H. apply H; auto.
